@@ -65,6 +65,9 @@ package resource_division
 // total over-quota weight of the unsatisfied queues: stated without the fold (no sum in the
 // spec language): non-negative, dominates every unsatisfied queue's weight, zero iff all such
 // weights are zero.
+// (helper "c09b") closed form of the fold: the SUM over the siblings of the over-quota weight of the unsatisfied ones
+//@ define unsatW(q *rs.QueueAttributes, r rs.ResourceName) real = ite(satisfied(q, r), 0.0, weight(q, r))
+//@ define totalUnsatW(qs map[common_info.QueueID]*rs.QueueAttributes, r rs.ResourceName) real = sum k in qs :: unsatW(qs[k], r)
 //@ func getTotalWeightsForUnsatisfied
 //@   props C09
 //@   requires validRes(resourceName) && queuesOK(queues) && weightsNonNeg(queues, resourceName)
@@ -74,9 +77,11 @@ package resource_division
 //@     invariant forall k in visited :: k in queues
 //@     invariant forall k in visited :: !satisfied(queues[k], resourceName) ==> weight(queues[k], resourceName) <= totalOverQuotaWeights
 //@     invariant totalOverQuotaWeights > 0.0 ==> exists k in visited :: !satisfied(queues[k], resourceName) && weight(queues[k], resourceName) > 0.0
+//@     invariant totalOverQuotaWeights == sum k in visited :: unsatW(queues[k], resourceName)
 //@   ensures [nonneg] result >= 0.0
 //@   ensures [dominates] forall k in queues :: !satisfied(queues[k], resourceName) ==> weight(queues[k], resourceName) <= result
 //@   ensures [positiveHasWitness] result > 0.0 ==> exists k in queues :: !satisfied(queues[k], resourceName) && weight(queues[k], resourceName) > 0.0
+//@   ensures [closedForm] result == totalUnsatW(queues, resourceName)
 //@ end
 
 // share weight of one queue for total over-quota weight T and time-based-fairness factor kv
@@ -99,6 +104,8 @@ package resource_division
 //@     invariant resourceName == "Memory" ==> forall k in shareWeightsPerQueue :: shareWeightsPerQueue[k] == shareWf(queues[k].Memory.OverQuotaWeight, queues[k].Memory.Usage, totalWeights, kValue)
 //@     invariant resourceName == "GPU" ==> forall k in shareWeightsPerQueue :: shareWeightsPerQueue[k] == shareWf(queues[k].GPU.OverQuotaWeight, queues[k].GPU.Usage, totalWeights, kValue)
 //@     invariant forall k in shareWeightsPerQueue :: shareWeightsPerQueue[k] <= shareWeightsSum
+//@     invariant totalWeights == totalUnsatW(queues, resourceName)
+//@     invariant shareWeightsSum == sum k in visited :: shareWeightsPerQueue[k]
 //@   ensures [freshMap] result0 != nil && fresh(result0)
 //@   ensures [sumNonNeg] result1 >= 0.0
 //@   ensures [weightsNonNeg] forall k in result0 :: result0[k] >= 0.0
@@ -106,6 +113,8 @@ package resource_division
 //@   ensures [keysUnsatisfied] forall k in result0 :: k in queues && !satisfied(queues[k], resourceName)
 //@   ensures [unsatisfiedHaveKey] result1 != 0.0 ==> forall k in queues :: !satisfied(queues[k], resourceName) ==> k in result0
 //@   ensures [formula] result1 != 0.0 ==> exists T real :: T > 0.0 && (forall k in queues :: !satisfied(queues[k], resourceName) ==> weight(queues[k], resourceName) <= T) && (forall k in result0 :: result0[k] == shareW(queues[k], resourceName, T, kValue))
+//@   ensures [sumOfWeights] result1 == sum k in queues :: result0[k]
+//@   ensures [formulaClosed] result1 != 0.0 ==> forall k in result0 :: result0[k] == shareW(queues[k], resourceName, totalUnsatW(queues, resourceName), kValue)
 //@   ensures [weightMonotoneCPU] resourceName == "CPU" && kValue >= 0.0 ==> forall a in result0 :: forall b in result0 :: queues[a].CPU.OverQuotaWeight <= queues[b].CPU.OverQuotaWeight && queues[a].CPU.Usage >= queues[b].CPU.Usage ==> result0[a] <= result0[b]
 //@   ensures [weightMonotoneMemory] resourceName == "Memory" && kValue >= 0.0 ==> forall a in result0 :: forall b in result0 :: queues[a].Memory.OverQuotaWeight <= queues[b].Memory.OverQuotaWeight && queues[a].Memory.Usage >= queues[b].Memory.Usage ==> result0[a] <= result0[b]
 //@   ensures [weightMonotoneGPU] resourceName == "GPU" && kValue >= 0.0 ==> forall a in result0 :: forall b in result0 :: queues[a].GPU.OverQuotaWeight <= queues[b].GPU.OverQuotaWeight && queues[a].GPU.Usage >= queues[b].GPU.Usage ==> result0[a] <= result0[b]
